@@ -196,7 +196,10 @@ struct E4 : Engine {
 		simk::Stats st = simk::stats();
 		simk::end();
 		if(res.ok && conc){
-			Lin lin(hist,now,1500000); lin.empty_trigger_refused = true; CacheModel start; start.limit = 0; bool ok = lin.search(0,start); cnt["lin_states"] = (int64_t)lin.states;
+			// with several servers rise() and clear() are broadcasts: every server is reached at its own moment inside the call (found by a soak run: a fetch served by the
+			// server not yet reached, after a fetch on the one already cleared, is no violation - only a COMPLETED rise/clear binds every later fetch)
+			if(ns > 1){ std::vector<Op> h2; for(auto &o:hist){ if(o.kind == "rise" || o.kind == "clear"){ for(unsigned sv=0;sv<ns;sv++){ Op c2 = o; c2.only_server = (int)sv; h2.push_back(c2); } } else h2.push_back(o); } hist.swap(h2); cnt["lin_broadcasts_split_per_server"]++; }
+			Lin lin(hist,now,1500000); lin.empty_trigger_refused = true; lin.server_of = [ns](const std::string &k){ return server_of(k,ns); }; CacheModel start; start.limit = 0; bool ok = lin.search(0,start); cnt["lin_states"] = (int64_t)lin.states;
 			if(lin.inconclusive) cnt["lin_inconclusive"]++;
 			else if(!ok){ std::string h; std::vector<Op> sorted = hist; std::sort(sorted.begin(),sorted.end(),[](const Op&a,const Op&b){ return a.inv < b.inv; }); for(auto &o:sorted) h += "  " + o.str().substr(0,160) + "\n"; res.fail("not-linearizable","no sequential order consistent with real time explains the results of the clients:\n" + h); }
 			uint64_t overlap = 0; for(size_t i=0;i<hist.size();i++) for(size_t j=i+1;j<hist.size();j++) if(hist[i].thread != hist[j].thread && hist[i].inv < hist[j].ret && hist[j].inv < hist[i].ret) overlap++; cnt["overlapping_pairs"] = (int64_t)overlap; }
